@@ -35,6 +35,11 @@ package vgirpc
 //@   at call arrow.NewMetadata assert [cursorkey] len(arg0) >= 1 && arg0[len(arg0)-1] == MetaStreamState
 //@   at call arrow.NewMetadata assert [paired] len(arg0) == len(arg1)
 //@   at call arrow.NewMetadata assert [databatch] isDataBatch
+//@   # the batch the cursor is merged into is the collector's data batch: the index the loop is at
+//@   # equals the data-batch index the loop itself read from the collector for this iteration
+//@   pathvar dataIdx int
+//@   at load OutputCollector.dataBatchIdx setflag dataIdx value
+//@   at call arrow.NewMetadata assert [dataindex] i == dataIdx
 //@   at call (*HttpServer).packCursorToken assert [freshcursor] arg1 == callID && arg2 == iface(state) && arg3 == auth
 
 // the recovering literal hands the handler exactly this turn's context, input and collector
